@@ -244,7 +244,11 @@ func TestC07(t *testing.T) {
 			fmt.Sprintf("u:true:0x%x", nowUnix), fmt.Sprintf("u:true:%d", nowUnix+5), fmt.Sprintf("u:true:%d", nowUnix-int64(lifetimes[fi]/time.Second)-1), fmt.Sprintf("u::%d", nowUnix), "",
 			fmt.Sprintf("u:false :%d", nowUnix), "u:true:99999999999999999999",
 		} {
-			_, _, nonce, enc := f.sealToken(pt)
+			nonce, enc, sealable := sealWith(f, pt)
+			if !sealable {
+				ev.NotExhaustive("the factory's internal sealing function has an unknown signature: chosen plaintexts skipped")
+				break
+			}
 			text := base64.URLEncoding.EncodeToString(nonce) + ":" + base64.URLEncoding.EncodeToString(enc)
 			st, _, user, adm := f.Check(text)
 			ev.Add("evaluations", 1)
@@ -280,7 +284,11 @@ func TestC07(t *testing.T) {
 			}
 			want := age.Sign() >= 0 && age.Cmp(big.NewInt(L)) < 0
 			pt := fmt.Sprintf("u:true:%d", ts)
-			_, _, nonce, enc := f.sealToken(pt)
+			nonce, enc, sealable := sealWith(f, pt)
+			if !sealable {
+				ev.NotExhaustive("the factory's internal sealing function has an unknown signature: chosen plaintexts skipped")
+				break
+			}
 			text := base64.URLEncoding.EncodeToString(nonce) + ":" + base64.URLEncoding.EncodeToString(enc)
 			st, _, user, adm := f.Check(text)
 			ev.Add("evaluations", 1)
@@ -317,4 +325,19 @@ func TestC07(t *testing.T) {
 		"user names are taken from the schema's grammar (no ':')"}
 	vtime.SetOffset(0)
 	ev.Finish()
+}
+
+// sealWith seals a chosen plaintext with the factory's own key through its internal sealing
+// function, whatever the parameter type of that function is (a refactoring of the internals
+// must not make the whole harness package unbuildable).
+func sealWith(f *webSessionFactory, pt string) (nonce, enc []byte, ok bool) {
+	switch fn := any(f.sealToken).(type) {
+	case func(string) (int, string, []byte, []byte):
+		_, _, nonce, enc = fn(pt)
+		return nonce, enc, true
+	case func([]byte) (int, string, []byte, []byte):
+		_, _, nonce, enc = fn([]byte(pt))
+		return nonce, enc, true
+	}
+	return nil, nil, false
 }
